@@ -6,7 +6,7 @@ import worldgen as W
 ID = "C13"
 LEAN_TARGETS = ["Rsp.Props.C13", "Rsp.Props.C12Merge"]
 THEOREMS = ["Rsp.Props.C13.decttl_length", "Rsp.Props.C13.decttl_zero", "Rsp.Props.C13.decttl_pos",
-            "Rsp.Props.C13.decttl_meets_spec", "Rsp.Props.C13.checkttl_plain", "Rsp.Props.C13.checkttl_plain_first",
+            "Rsp.Props.C13.decttl_meets_spec", "Rsp.Props.C13.hop_chain_exact", "Rsp.Props.C13.hop_chain_bounded", "Rsp.Props.C13.checkttl_plain", "Rsp.Props.C13.checkttl_plain_first",
             "Rsp.Props.C13.addttl_plain", "Rsp.Props.C13.effAddTtl_table", "Rsp.Props.C13.loopPrevents_iff",
             "Rsp.Props.C12.inherited_on_iff", "Rsp.Props.C13.forward_loop_prevented", "Rsp.Props.C13.rewrite_ttl_exceeded"]
 RULE = ("world: histories with TTL attributes of the configured type (plain or vendor) at 0,1,2,3,256,.. and odd lengths on requests and replies, AddTTL per peer/global, "
